@@ -274,13 +274,16 @@ class ListObj(HeapObj):
         self.get = get
         self.fresh = fresh       # constructed in this activation (frame analysis)
         self.elem = elem         # element descriptor used when the list has to be havoc'ed
+        self.elems_fresh = False  # every element is a distinct object created for this list (comprehension of fresh values)
 
     @property
     def concrete(self):
         return self.items is not None
 
     def clone(self):
-        return ListObj(None if self.items is None else list(self.items), self.length, self.get, self.fresh, self.elem)
+        c = ListObj(None if self.items is None else list(self.items), self.length, self.get, self.fresh, self.elem)
+        c.elems_fresh = self.elems_fresh
+        return c
 
     def len_term(self):
         return len(self.items) if self.concrete else self.length
@@ -326,6 +329,29 @@ class FrameObj(HeapObj):
 
     def clone(self):
         return FrameObj(self.n, self.cols, self.fresh)
+
+
+class MatrixObj(HeapObj):
+    """Rectangular nested list (list of equally long row lists) with place semantics: `cell(r, c)` gives the element;
+    rows are accessed through `RowView` values so that stores through a symbolic row index are seen by all reads."""
+    kind = "matrix"
+
+    def __init__(self, rows, cols, cell, fresh=True, elem=None):
+        self.rows, self.cols, self.cell, self.fresh, self.elem = rows, cols, cell, fresh, elem
+
+    def clone(self):
+        return MatrixObj(self.rows, self.cols, self.cell, self.fresh, self.elem)
+
+
+class RowView:
+    """Row `r` of a MatrixObj (a list value aliasing the matrix)."""
+    __slots__ = ("matrix", "r")
+
+    def __init__(self, matrix: Ref, r):
+        self.matrix, self.r = matrix, r
+
+    def __repr__(self):
+        return f"RowView({self.matrix}, {self.r})"
 
 
 class Cursor:
